@@ -30,6 +30,7 @@ import (
 
 	"golang.org/x/sys/unix"
 
+	"github.com/panjf2000/gnet/v2/internal/vhook"
 	errorx "github.com/panjf2000/gnet/v2/pkg/errors"
 	gio "github.com/panjf2000/gnet/v2/pkg/io"
 	"github.com/panjf2000/gnet/v2/pkg/logging"
@@ -141,6 +142,7 @@ func (el *eventloop) enroll(c net.Conn, addr net.Addr, ctx any) (resCh chan Regi
 		err1 := rc.Control(func(fd uintptr) {
 			dupFD, err = socket.Dup(int(fd))
 		})
+		vhook.Sys("el.dup", nil, dupFD, 0, err)
 		if err != nil {
 			resCh <- RegisteredResult{Err: err}
 			return
@@ -219,10 +221,12 @@ func (el *eventloop) register0(c *conn) error {
 	}
 	if err := addEvents(&c.pollAttachment, el.engine.opts.EdgeTriggeredIO); err != nil {
 		_ = unix.Close(c.fd)
+		vhook.Sys("el.regclose", c, c.fd, 0, err)
 		c.release()
 		return err
 	}
 	el.connections.addConn(c, el.idx)
+	vhook.Ev("el.registered", c, c.fd, el.idx)
 	if c.isDatagram && c.remote != nil {
 		return nil
 	}
@@ -231,6 +235,7 @@ func (el *eventloop) register0(c *conn) error {
 
 func (el *eventloop) open(c *conn) error {
 	c.opened = true
+	vhook.Ev("el.opened", c, c.fd, el.idx)
 
 	out, action := el.eventHandler.OnOpen(c)
 	if out != nil {
@@ -262,6 +267,7 @@ func (el *eventloop) read(c *conn) error {
 	chunk := el.engine.opts.EdgeTriggeredIOChunk
 loop:
 	n, err := unix.Read(c.fd, el.buffer)
+	vhook.Sys("el.read", c, c.fd, n, err)
 	if err != nil || n == 0 {
 		if err == unix.EAGAIN {
 			return nil
@@ -283,6 +289,7 @@ loop:
 		return errorx.ErrEngineShutdown
 	}
 	_, _ = c.inboundBuffer.Write(c.buffer)
+	vhook.Ev("el.leftover", c, len(c.buffer), c.inboundBuffer.Buffered())
 	c.buffer = c.buffer[:0]
 
 	if c.isEOF || (isET && recv < chunk) {
@@ -326,8 +333,10 @@ loop:
 			iov = iov[:iovMax]
 		}
 		n, err = gio.Writev(c.fd, iov)
+		vhook.Sys("el.writev", c, c.fd, n, err)
 	} else {
 		n, err = unix.Write(c.fd, iov[0])
+		vhook.Sys("el.write", c, c.fd, n, err)
 	}
 	_, _ = c.outboundBuffer.Discard(n)
 	switch err {
@@ -366,6 +375,7 @@ func (el *eventloop) close(c *conn, err error) error {
 	}
 
 	el.connections.delConn(c)
+	vhook.Ev("el.deregistered", c, c.fd, el.idx)
 	action := el.eventHandler.OnClose(c, err)
 
 	// Send residual data in buffer back to the remote before actually closing the connection.
@@ -375,6 +385,7 @@ func (el *eventloop) close(c *conn, err error) error {
 			iov = iov[:iovMax]
 		}
 		n, err := gio.Writev(c.fd, iov)
+		vhook.Sys("el.flushv", c, c.fd, n, err)
 		if err != nil {
 			break
 		}
@@ -382,9 +393,11 @@ func (el *eventloop) close(c *conn, err error) error {
 	}
 
 	c.release()
+	vhook.Ev("el.released", c, c.fd, el.idx)
 
 	var errStr strings.Builder
 	err0, err1 := el.poller.Delete(c.fd), unix.Close(c.fd)
+	vhook.Sys("el.close", c, c.fd, 0, err1)
 	if err0 != nil {
 		err0 = fmt.Errorf("failed to delete fd=%d from poller in event-loop(%d): %v",
 			c.fd, el.idx, os.NewSyscallError("delete", err0))
@@ -450,6 +463,7 @@ func (el *eventloop) ticker(ctx context.Context) {
 
 func (el *eventloop) readUDP(fd int, _ netpoll.IOEvent, _ netpoll.IOFlags) error {
 	n, sa, err := unix.Recvfrom(fd, el.buffer, 0)
+	vhook.Sys("el.recvfrom", nil, fd, n, err)
 	if err != nil {
 		if err == unix.EAGAIN {
 			return nil
